@@ -948,6 +948,32 @@ impl Gen {
     }
 }
 
+/// The byte values with the longest Huffman codes (anti-compressible content). The check passes them in
+/// VH_LONGCODES, taken from spec/huffman/HuffTable.tla; without it they are derived from the library's
+/// `compressed_len`.
+fn long_code_bytes() -> Vec<u8> {
+    if let Ok(s) = std::env::var("VH_LONGCODES") {
+        let v: Vec<u8> = s.split(',').filter_map(|x| x.trim().parse().ok()).collect();
+        if !v.is_empty() {
+            return v;
+        }
+    }
+    let mut all: Vec<(usize, u8)> = (0..=255u8).map(|b| (HUFFMAN.compressed_len(&[b; 64]), b)).collect();
+    all.sort_by(|a, b| b.cmp(a));
+    all.iter().take(4).map(|x| x.1).collect()
+}
+
+/// Content classes from highly compressible to anti-compressible.
+fn filler(g: &mut Gen, cls: usize, n: usize, long: &[u8]) -> Vec<u8> {
+    match cls {
+        0 => vec![0u8; n],
+        1 => (0..n).map(|i| if (i * 7 + i / 5) % 3 == 0 { 1 } else { 0 }).collect(),
+        2 => (0..n).map(|_| g.rng.gen::<u8>()).collect(),
+        3 => vec![long[0]; n],
+        _ => (0..n).map(|i| long[i % long.len()]).collect(),
+    }
+}
+
 /// The datagram the real writer produces for a generated packet case (None if it refuses).
 fn written(case: &Value) -> Option<Vec<u8>> {
     let ev = exec_case(case);
@@ -972,6 +998,7 @@ fn drive(seed: u64, tier: &str, parts: &str, emit_all: &mut dyn FnMut(&Value)) {
     }
     let mut g = Gen { rng: StdRng::seed_from_u64(seed) };
     let thorough = tier == "thorough";
+    let long = long_code_bytes();
     let n_rt = if thorough { 1500 } else { 220 };
     let n_garbage = if thorough { 1500 } else { 250 };
     let n_mut = if thorough { 3000 } else { 400 };
@@ -1015,13 +1042,12 @@ fn drive(seed: u64, tier: &str, parts: &str, emit_all: &mut dyn FnMut(&Value)) {
         for tok in toks {
             let max = if v == 6 { 1397 - tok.len() } else { 1393 };
             for n in (max - 3)..=max {
-                for cls in 0..3 {
-                    let data: Vec<u8> = match cls {
-                        0 => vec![0u8; n],
-                        1 => (0..n).map(|i| if (i * 7 + i / 5) % 3 == 0 { 1 } else { 0 }).collect(),
-                        _ => (0..n).map(|_| g.rng.gen::<u8>()).collect(),
-                    };
-                    for rcap in [1400usize, 1401, 2048] {
+                for cls in 0..5 {
+                    // 3, 4: the byte values with the longest Huffman codes -- the compressed form does not
+                    // fit the writer's internal 2048-byte buffer
+                    let data = filler(&mut g, cls, n, &long);
+                    for rcap in if cls < 3 { &[1400usize, 1401, 2048][..] } else { &[1400usize][..] } {
+                        let rcap = *rcap;
                         emit_if(c05, emit_all, &json!({"k": "rt", "v": v, "rcap": rcap, "hascl": false, "cl": [], "p": {"t": "chunks", "ack": 512, "token": bj(tok), "rr": false, "nc": 3, "data": bj(&data)}}));
                     }
                 }
@@ -1269,6 +1295,45 @@ fn drive(seed: u64, tier: &str, parts: &str, emit_all: &mut dyn FnMut(&Value)) {
                     for cap in [1400usize, 4096] {
                         emit_if(c06, emit_all, &rd_case(v, &dg, if v == 6 { "true" } else { "none" }, cap));
                     }
+                }
+            }
+        }
+    }
+
+    // (9) datagrams of (near-)maximum length, uncompressed and compressed on the wire, every content class
+    //     (the re-written form of an accepted value may take the other compression branch, or not fit the
+    //     writer's internal compression buffer at all), every hint
+    for v in [6u64, 7] {
+        let hs = if v == 6 { 3usize } else { 7 };
+        let hints: &[&str] = if v == 6 { &["none", "true", "false"] } else { &["none"] };
+        let lens: Vec<usize> = if thorough { (1380..=1400).collect() } else { (1388..=1400).collect() };
+        for &len in &lens {
+            let classes: &[usize] = if thorough { &[0, 1, 2, 3, 4] } else { &[0, 2, 3] };
+            for &cls in classes {
+                let mut dg = vec![0u8; hs];
+                dg[2] = 1;
+                if v == 7 {
+                    dg[3..7].copy_from_slice(&[9, 8, 7, 6]);
+                }
+                let body = filler(&mut g, cls, len - hs, &long);
+                dg.extend_from_slice(&body);
+                for h in hints {
+                    emit_if(c06, emit_all, &rd_case(v, &dg, h, if len % 2 == 0 { 1400 } else { 2048 }));
+                }
+            }
+            // the same body lengths behind the compression flag
+            for &cls in if thorough { &[0usize, 1][..] } else { &[0usize][..] } {
+                let body = filler(&mut g, cls, len - hs, &long);
+                let z = HUFFMAN.compress_into_vec(&body);
+                let mut dg = vec![0u8; hs];
+                dg[0] = if v == 6 { 0x80 } else { 0x10 };
+                dg[2] = 1;
+                if v == 7 {
+                    dg[3..7].copy_from_slice(&[9, 8, 7, 6]);
+                }
+                dg.extend_from_slice(&z);
+                for h in hints {
+                    emit_if(c06, emit_all, &rd_case(v, &dg, h, if len % 2 == 0 { 1400 } else { 2048 }));
                 }
             }
         }
